@@ -80,3 +80,9 @@ Definition quantile (q : Q) (l : list Z) : Q :=
   let a := nth (Z.to_nat lo) s 0%Z in
   let b := nth (Z.to_nat (lo + 1)) s a in
   inject_Z a + (pos - inject_Z lo) * inject_Z (b - a).
+
+(* ---- naming of distributions (Dists.init): the object search enumerates (path, object) pairs in a fixed order -- the containers of the sim in the
+   order demographics, networks, diseases, interventions, analyzers, connectors, each module's attributes in definition order -- and an object is
+   named after the FIRST path that reaches it; its seed is sha(name) + base seed (seed_gen) *)
+Definition name_of (i : nat) (l : list (string * nat)) : option string :=
+  option_map fst (find (fun x => Nat.eqb (snd x) i) l).
